@@ -184,6 +184,7 @@ def check_sig(ctx, name, form):
             ctx.require(q, z3.And(z3.Not(allfit), z3.BoolVal(len(g) == 0)), "aborts only before the call and only when some argument is not representable")
     ctx.only(paths, "ret", "abort")
     ctx.expect(paths, ret=1)
+    ctx.validate_paths(paths, 6)
 
 
 def check_two(ctx):
@@ -273,6 +274,6 @@ def jobs(tier, seed):
     fl = ["-D_GLIBCXX_EXTERN_TEMPLATE=0"]
     items = [dict(name="BM %s %s" % (n, f), fn=check_sig, kw=dict(name=n, form=f), unwind=300) for n in SIGS for f in FORMS]
     items += [dict(name="BM two instances same name", fn=check_two, unwind=300), dict(name="BM function address before/after invoke", fn=check_fnaddr, unwind=300)]
-    out = [Job("C11_bm_%d" % i, src, items[i::6], flags=fl, native=False) for i in range(6)]
+    out = [Job("C11_bm_%d" % i, src, items[i::6], flags=fl) for i in range(6)]
     out.append(Job("C11_noop_static", NOOP_SRC, [dict(name="noop static call", fn=check_noop, unwind=300)], native=False))
     return out
